@@ -1030,6 +1030,14 @@ func (P *Prog) decideInvoke(r *Result, g *modCG, fn *ssa.Function, s panicSite, 
 				if e2, ok := gd.If.Cond.(*ssa.Extract); ok && e2.Tuple == ssa.Value(ta) && e2.Index == 1 && gd.True {
 					why = "receiver obtained by a comma-ok assertion under its ok guard"
 				}
+				// used where the assertion is known to have FAILED: the value is the nil interface, the call panics
+				// (`closer, ok := r.(io.Closer); if !ok { defer closer.Close() }` - every reader that is not a Closer)
+				if e2, ok := gd.If.Cond.(*ssa.Extract); ok && e2.Tuple == ssa.Value(ta) && e2.Index == 1 && !gd.True {
+					if _, isIface := ta.AssertedType.Underlying().(*types.Interface); isIface {
+						r.bad("C06/panic-site", c, pos, "a method is called on the result of a comma-ok assertion on the path where the assertion failed: the value is a nil interface there and the call panics")
+						return
+					}
+				}
 			}
 		}
 		if _, ok := x.Tuple.(*ssa.Call); ok && P.isDataProviderIface(recv.Type()) {
